@@ -462,7 +462,7 @@ func main() {
 		}(part)
 	}
 	wg.Wait()
-	r.Finish("raw peers, one per session, each with its listening stream (Streamable GET / legacy SSE / stdio): 1-8 sender goroutines issue SendNotification / BroadcastNotification / SendFilteredNotification with unique nonces (payloads up to 2 MiB) to 1-16 sessions plus two sessions without a stream; per stream the received multiset must equal the successful sends addressed to it, in per-sender order, counts must equal the streams reached; ListRoots from a tool handler in every session while every OTHER session posts a forged answer with the same request id first; pending tables read through the verif hook at quiescence. Failed server-issued requests (failures.go), per server kind (Streamable JSON and SSE answers, legacy SSE, stdio): ListRoots / SendRequest issued inside a session with a context that is already cancelled / past its deadline (many repetitions), cancelled while the request is half written (yield points sse.write.*, stdio.write.mid), cancelled / timed out while the peer stays silent, refused or stalled because the peer stopped reading its stream (legacy event queue, stdio message channel full; Streamable write stalls), no listening stream, stream closed by the peer / session deleted / stdin closed mid-request, params that cannot be encoded, unknown or missing session, a seeded concurrent mix of all of these — with the answers of abandoned requests posted late (also by another session) while the next request of the session is pending, and another session asking for its roots throughout. Judged: a call that returns without error returns the answer the addressed session posted for exactly that request; after every call of a scenario has returned the pending table has not grown; a following well-formed ListRoots returns the session's roots. Queue pressure (pressure.go), per server kind (Streamable listening stream, legacy SSE, stdio through the session's notification channel): one goroutine sends 150 / 1 000 / 5 000 sequentially numbered notifications (small, 64 KiB, every k-th 64 KiB) to one session whose peer reads promptly, slowly (reading switched off and on every few ms) or not at all for a while and then resumes; the same with 3-16 sessions and two sender goroutines per session bursting at once while server-issued roots/list requests and the answers to the peer's own tools/call requests share the stream; a send may be refused (queue full): the peer must receive exactly the notifications whose send returned nil, each once, none refused as full, those of one (session, sender) in strictly increasing sequence order, nothing on another session's stream; a server-issued request that returned nil was seen once by its session and returned that session's answer to it. Distinct = (part, server kind, sessions, senders), (server kind, failure scenario actually exercised) and (server kind, burst shape, n, payload, reader regime) with at least one delivery; refused sends / senders that waited for the reader are counted per scenario. Reused arguments (reuse.go), per server kind: 1-3 application goroutines, each with ONE params map, send through every sending path of the kind (Server.SendNotification / BroadcastNotification / SendFilteredNotification; SSEServer.SendNotification; the session's notification channel fed with NewJSONRPCNotificationFromMap, also built first and queued after the map was rewritten; in-call senders SendCustomNotification / SendNotification(NewNotification) / Server.NewNotification on the request's own event stream) to 1-6 sessions, alternating between sessions, staying on one, or at random; the map is refilled before every send and scribbled over as soon as the call has returned (top-level keys replaced, added, deleted; nested values are fresh per send and never written to); readers prompt / slow / paused-then-resumed and, on legacy SSE and stdio, a gate (the head of every session's queue carries a value whose encoding blocks until the whole batch has been sent and scribbled over, so the pump is provably busy); judged: every frame is, by nonce, one of the sends, addressed to this session, with params equal as JSON value to the snapshot taken right before the call; every send that returned nil arrives exactly once per addressed session, in per-(application, session) order. Distinct adds (server kind, sessions, applications, n, pattern, reader regime, payload mix) with at least one delivery.",
+	r.Finish("raw peers, one per session, each with its listening stream (Streamable GET / legacy SSE / stdio): 1-8 sender goroutines issue SendNotification / BroadcastNotification / SendFilteredNotification with unique nonces (payloads up to 2 MiB) to 1-16 sessions plus two sessions without a stream; per stream the received multiset must equal the successful sends addressed to it, in per-sender order, counts must equal the streams reached; ListRoots from a tool handler in every session while every OTHER session posts a forged answer with the same request id first; pending tables read through the verif hook at quiescence. Failed server-issued requests (failures.go), per server kind (Streamable JSON and SSE answers, legacy SSE, stdio): ListRoots / SendRequest issued inside a session with a context that is already cancelled / past its deadline (many repetitions), cancelled while the request is half written (yield points sse.write.*, stdio.write.mid), cancelled / timed out while the peer stays silent, refused or stalled because the peer stopped reading its stream (legacy event queue, stdio message channel full; Streamable write stalls), no listening stream, stream closed by the peer / session deleted / stdin closed mid-request, params that cannot be encoded, unknown or missing session, a seeded concurrent mix of all of these — with the answers of abandoned requests posted late (also by another session) while the next request of the session is pending, and another session asking for its roots throughout. Judged: a call that returns without error returns the answer the addressed session posted for exactly that request; after every call of a scenario has returned the pending table has not grown; a following well-formed ListRoots returns the session's roots. Unanswered requests by context shape (cancelshapes.go), per server kind: ListRoots / SendRequest to a session whose peer stays silent, with a context cancelled without a deadline (WithCancel, cancelled parent, the request context of a tools/call the client abandons - Streamable), with a deadline, with a far deadline and an earlier cancel; ended before the send, while waiting, or together with the answer; the answer is then posted late and the next request must get its own answer; a call that is still blocked and still counted as pending 10 s after its context was observed done, while the same session served 8 complete later requests, is a violation (anything less is inconclusive). Queue pressure (pressure.go), per server kind (Streamable listening stream, legacy SSE, stdio through the session's notification channel): one goroutine sends 150 / 1 000 / 5 000 sequentially numbered notifications (small, 64 KiB, every k-th 64 KiB) to one session whose peer reads promptly, slowly (reading switched off and on every few ms) or not at all for a while and then resumes; the same with 3-16 sessions and two sender goroutines per session bursting at once while server-issued roots/list requests and the answers to the peer's own tools/call requests share the stream; a send may be refused (queue full): the peer must receive exactly the notifications whose send returned nil, each once, none refused as full, those of one (session, sender) in strictly increasing sequence order, nothing on another session's stream; a server-issued request that returned nil was seen once by its session and returned that session's answer to it. Distinct = (part, server kind, sessions, senders), (server kind, failure scenario actually exercised) and (server kind, burst shape, n, payload, reader regime) with at least one delivery; refused sends / senders that waited for the reader are counted per scenario. Reused arguments (reuse.go), per server kind: 1-3 application goroutines, each with ONE params map, send through every sending path of the kind (Server.SendNotification / BroadcastNotification / SendFilteredNotification; SSEServer.SendNotification; the session's notification channel fed with NewJSONRPCNotificationFromMap, also built first and queued after the map was rewritten; in-call senders SendCustomNotification / SendNotification(NewNotification) / Server.NewNotification on the request's own event stream) to 1-6 sessions, alternating between sessions, staying on one, or at random; the map is refilled before every send and scribbled over as soon as the call has returned (top-level keys replaced, added, deleted; nested values are fresh per send and never written to); readers prompt / slow / paused-then-resumed and, on legacy SSE and stdio, a gate (the head of every session's queue carries a value whose encoding blocks until the whole batch has been sent and scribbled over, so the pump is provably busy); judged: every frame is, by nonce, one of the sends, addressed to this session, with params equal as JSON value to the snapshot taken right before the call; every send that returned nil arrives exactly once per addressed session, in per-(application, session) order. Distinct adds (server kind, sessions, applications, n, pattern, reader regime, payload mix) with at least one delivery.",
 		[]string{"membership (sessions, streams) is fixed while a batch of broadcasts runs", "notification quiescence is established by a closing fence notification per session (frames of one stream arrive in sending order); a fence that does not arrive leaves the batch unjudged", "pressure scenarios: a legacy SSE / stdio part in which no send was ever refused is reported inconclusive (no queue filled); senders or interleaved requests that have not returned 180 s after the peer resumed leave the scenario unjudged", "a failed request's call is given 40 s to return after its context ended before the part is declared inconclusive", "the tool handler's context (carrying the session) stays usable for server-issued requests while the handler has not returned",
 			"reused arguments: what is sent is the value of the params map when the send call is made (top level; the library documents no deep copy, so values nested inside the map are never written to after a send); a notification constructor (NewNotification / NewJSONRPCNotificationFromMap) likewise captures the map's top level when it is called"})
 }
